@@ -1,6 +1,6 @@
 (** Property C16 -- the alternate screen never disturbs the primary screen.
     Only pinned statements, closed by [exact], with their assumptions printed. *)
-From Avt Require Import Oracles.Step Oracles.Rel Proofs.Inv Proofs.StepC16 Proofs.ResizeText.
+From Avt Require Import Oracles.Step Oracles.Rel Proofs.Inv Proofs.StepC16 Proofs.ResizeText Proofs.StepC16R.
 
 (** For every control function from every state satisfying the invariant: while the alternate screen stays active the parked primary buffer (lines, wrap marks, geometry) is untouched; every entry (47 / 1047 / 1049, also inside longer mode lists) parks the primary unchanged and presents a blank alternate screen filled with the current pen, 1049 saving the cursor first; leaving with unchanged size restores the primary's lines exactly. *)
 Theorem C16_statement : forall p p' t f t', TInv t -> execute t f = Ok t' -> holds_C16 (mkVt p t) f (mkVt p' t') = true.
@@ -13,3 +13,11 @@ Theorem C16_resized_text : forall b nc nr cc cr b' cc' cr', BInv b -> 1 <= nc ->
 Proof. exact resize_text. Qed.
 Check C16_resized_text : forall b nc nr cc cr b' cc' cr', BInv b -> 1 <= nc -> 1 <= nr -> cr < brows b -> cc <= bcols b -> buf_resize b nc nr cc cr = Ok (b', (cc', cr')) -> resize_preserves b cc cr b' cc' cr' = true.
 Print Assumptions C16_resized_text.
+
+(** C16.4 at the level of the control function: leaving via ?1049l after any resize during the excursion re-wraps the parked
+    primary without altering its logical text and puts the cursor back on the same character (C10's statement for the parked
+    buffer and the saved cursor); the geometry invariants hold on return for all three mode numbers *)
+Theorem C16_resized_statement : forall p p' t f t', TInv t -> execute t f = Ok t' -> holds_C16_resized (mkVt p t) f (mkVt p' t') = true.
+Proof. exact C16_resized_holds. Qed.
+Check C16_resized_statement : forall p p' t f t', TInv t -> execute t f = Ok t' -> holds_C16_resized (mkVt p t) f (mkVt p' t') = true.
+Print Assumptions C16_resized_statement.
